@@ -3,6 +3,7 @@ whole is NOT decided by this check (no sound pointer/bounds analysis for this co
 reach: see DESIGN.md).  Each obligation below is a necessary condition: breaking it makes an
 out-of-bounds write or a wrapped allocation size reachable from input.
 """
+import re
 from qv.core import AnalysisBroken
 from qv.lib import holds_set
 from qv import bounds
@@ -621,6 +622,129 @@ def growth_sites(db, rep):
     return out
 
 
+def cdb_corrupt_sites(db, rep):
+    """cdb_seek() on corrupt database images and on keys longer than its comparison buffer: every byte read() delivers lands
+    inside the array it was asked into (packbuf[8], match()'s buf[32]), the key is read only below its length, the search ends
+    (found / not found / error) and never reports a record whose key differs"""
+    import struct
+    from rules.libtab import Conc
+    from rules import C11 as _c11
+    from qv.esp import ptr_add
+    prog = db.program('qmail-lspawn')
+    fn = db.fn('cdb_seek.c', 'cdb_seek')
+    long_a = bytes(97 + (i % 26) for i in range(70))
+    long_b = long_a[:69] + b'#'
+    long_c = long_a[:33] + b'#' + long_a[34:]
+    good = _c11._cdb_image([(long_a, b'DATA-A'), (b'solo', b'x')])
+
+    def hdr(img, key, pos=None, ln=None):
+        h = _c11._cdbhash(key) & 255
+        a, b = struct.unpack_from('<II', img, 8 * h)
+        return img[:8 * h] + struct.pack('<II', a if pos is None else pos, b if ln is None else ln) + img[8 * h + 8:]
+    images = [
+        ('intact', good, long_a, 1), ('intact', good, long_b, 0), ('intact', good, long_c, 0), ('intact', good, b'solo', 1),
+        ('truncated behind the header', good[:2048], long_a, -1),
+        ('truncated inside the record', good[:2048 + 8 + 40], long_a, -1),
+        ('hash table position beyond the file', hdr(good, long_a, pos=len(good) + 4096), long_a, -1),
+        ('slot count 0xffffffff', hdr(good, long_a, ln=0xffffffff), long_a, None),
+        ('slot count larger than the table', hdr(good, b'solo', ln=7), b'solo', None),
+        ('empty file', b'', b'solo', -1),
+    ]
+    for k_ in (0, 31, 32, 33, 63, 64, 69):
+        # the slot carries the hash of the key searched for, the record it points to holds a key that differs in byte k_
+        images.append(('stored key differs in byte %d' % k_, good[:2056 + k_] + b'#' + good[2057 + k_:], long_a, 0))
+    sizes = {}
+    bad = {}
+    n = 0
+
+    class CH(Conc):
+        def __init__(self, img, key):
+            Conc.__init__(self, 'cdb_seek')
+            self.img, self.key = img, key
+            self.bad = None
+            self.reads = 0
+
+        def prim_lseek(self, E, x, args):
+            p_ = _libtab._one(args[1])
+            return [Outcome(ret=fs(p_ if isinstance(p_, int) else 0), sets={'$pos': fs(p_)})]
+
+        def materialize(self, E, path):
+            if path.startswith('KEY['):
+                if self.bad is None:
+                    self.bad = ('key-read-below-its-length', 'byte %s of a %d-byte key is read' % (path[4:-1], len(self.key)), E.trace.list())
+                return fs(0)
+            return Conc.materialize(self, E, path)
+
+        def materialize_split(self, E, path):
+            return None
+
+        def prim_read(self, E, x, args):
+            bp, cnt = _libtab._one(args[1]), _libtab._one(args[2])
+            pos = _libtab._one(E.get('$pos'))
+            if not (isinstance(pos, int) and isinstance(cnt, int) and isinstance(bp, tuple)):
+                raise AnalysisBroken('cdb_seek: read(%s, %s) at position %s is not concrete' % (bp, cnt, pos))
+            self.reads += 1
+            if self.reads > 400:
+                return 'noreturn'
+            m_ = re.match(r'^(.*)\[(-?\d+)\]$', bp[1])
+            root, off = (m_.group(1), int(m_.group(2))) if m_ else (bp[1], 0)
+            cap = array_capacity(E, root)
+            if cap is not None and (off < 0 or cnt < 0 or off + cnt > cap) and self.bad is None:
+                self.bad = ('reads-land-inside-the-local-array', 'read() is asked for %d bytes at offset %d of %s, which holds %d' % (cnt, off, root.split('::')[-1], cap), E.trace.list())
+            if cap is None and self.bad is None:
+                self.bad = ('reads-land-inside-the-local-array', 'read() into %s, whose size is not known' % root, E.trace.list())
+            chunk = self.img[pos:pos + max(cnt, 0)][:cap - off if cap is not None and off + cnt > cap else None]
+            sets = {'$pos': fs(pos + len(chunk))}
+            for i, b in enumerate(chunk):
+                q = ptr_add(bp, i)
+                if q is not None:
+                    sets[q[1]] = fs(b - 256 if b >= 128 else b)
+            return [Outcome(ret=fs(len(chunk)), sets=sets)]
+
+    def array_capacity(E, root):
+        # root is "<frame>::L:<name>#k" of a local array; its capacity is the bound of its declared type
+        if root in sizes:
+            return sizes[root]
+        cap = None
+        mm = re.match(r'^([A-Za-z_0-9]+)(?:@\w+)?::(L:\w+(?:#\d+)?)$', root)
+        if mm:
+            for f_ in db.unit('cdb_seek.c').functions.values():
+                if f_.name != mm.group(1):
+                    continue
+                for x_ in f_.all_x():
+                    if x_.k == 'decl' and x_.n.get('d') == mm.group(2):
+                        t_ = re.match(r'^(?:unsigned |signed )?char\[(\d+)\]$', x_.n.get('t') or '')
+                        cap = int(t_.group(1)) if t_ else None
+        sizes[root] = cap
+        return cap
+
+    for what, img, key, want in images:
+        H = CH(img, key)
+        e = Engine(db, prog, H, max_states=400000)
+        fid = e.frame_id(fn)
+        st = {'%s::%s' % (fid, fn.params[0]): fs(5), '%s::%s' % (fid, fn.params[1]): fs(('&', 'KEY[0]')), '%s::%s' % (fid, fn.params[2]): fs(len(key)),
+              '%s::%s' % (fid, fn.params[3]): fs(('&', 'DLEN'))}
+        st.update(_libtab.conc_string_cells('KEY', key, terminate=False))
+        e.run(fn, st)
+        rep.count_states(e.states, e.transitions)
+        n += 1
+        if H.bad is not None:
+            bad.setdefault(H.bad[0], ('%s image, %d-byte key: %s' % (what, len(key), H.bad[1]), H.bad[2]))
+        if H.reads > 400 or H.bad is not None:
+            continue            # a 2^32-slot table of a corrupt file is walked slot by slot: bounded by the slot count, each step a checked read
+        if len(H.ends) != 1:
+            raise AnalysisBroken('cdb_seek on the %s image: %d ends' % (what, len(H.ends)))
+        got = _libtab._one(H.ends[0][1])
+        if want is not None and got != want:
+            bad.setdefault('verdict-on-corrupt-images', ('%s image, key %r...: cdb_seek returns %s, expected %s (1 only for the stored key, -1 when the file ends inside what the header promises)' % (what, key[:8], got, want), H.ends[0][2]))
+        if want is None and got == 1:
+            bad.setdefault('verdict-on-corrupt-images', ('%s image: a key that is not stored is reported found' % what, H.ends[0][2]))
+    out = {}
+    for k in ('reads-land-inside-the-local-array', 'key-read-below-its-length', 'verdict-on-corrupt-images'):
+        out['cdb_seek:' + k] = (k not in bad, 'cdb_seek.c:cdb_seek', bad[k][0] if k in bad else '%d (image, key) pairs incl. 70-byte keys differing in the last byte and in byte 33' % n, bad[k][1] if k in bad else [])
+    return out
+
+
 def run(ctx):
     db, rep = ctx.db, ctx.report
     # ---------------------------------------------------------------- 1. reserve contracts (linear symbolic)
@@ -799,6 +923,17 @@ def run(ctx):
     for inst, v in sorted(report_read_sites(db, rep).items()):
         r9.check(v[0], inst, v[1], v[2], v[3])
     r9.expect_min(2)
+
+    r10 = rep.rule('C20.10-constant-database', 'R-BOUND', 'corrupt users/cdb: cdb_seek() explored on intact, truncated and inconsistent images with keys longer than its 32-byte comparison buffer (every read() lands inside packbuf/buf, the key is read below its length, a foreign key is never reported found); qmail-lspawn\'s field parser on lookup results with 0..7 fields (incomplete -> QLX_USAGE, a complete record is parsed without touching anything behind it)')
+    for inst, v in sorted(cdb_corrupt_sites(db, rep).items()):
+        r10.check(v[0], inst, v[1], v[2], v[3])
+    from rules import C11 as _c11x
+    _u = db.unit('qmail-lspawn.c')
+    _qlx = {k: _u.macro_int(k) for k in _u.macros if k.startswith('QLX_')}
+    for inst, v in sorted(_c11x.spawn_record_sites(db, rep, _qlx).items()):
+        if 'incomplete' in inst or 'no-read' in inst:
+            r10.check(v[0], inst, v[1], v[2], v[3])
+    r10.expect_min(5)
 
     r7 = rep.rule('C20.7-output-buffering', 'R-BOUND', 'substdio_put / substdio_bput on a 16-byte buffer with 0, 3 or 16 bytes buffered and 0..20000 bytes put: every store stays inside the buffer, and bytes written + bytes buffered = bytes handed in')
     from rules import libtab
